@@ -36,10 +36,11 @@ func FlattenItemCollection(col ItemCollection) ItemCollection {
 	if col == nil {
 		return col
 	}
-	for k, it := range ItemCollectionDeduplication(&col) {
-		if iri := it.GetLink(); iri != "" {
-			col[k] = iri
-		}
+	ItemCollectionDeduplication(&col)
+	// NOTE: the de-duplicated IRIs skip nil entries and entries without an id, so they can not be
+	// written back by index: flatten the surviving entries in place instead.
+	for k, it := range col {
+		col[k] = FlattenToIRI(it)
 	}
 	return col
 }
